@@ -48,6 +48,9 @@ pub enum View {
     RevIter,
     Queries,
     CloneDrop,
+    /// foreign decoders over the raw-binary payload (`from_binary_slice`,
+    /// `from_reversed_binary`, `from_reversed_binary_iter`), when the payload is whole words
+    BinaryDecoders,
 }
 
 #[derive(Clone, Copy, Debug, Serialize, Deserialize, PartialEq, Eq, Hash)]
@@ -86,6 +89,8 @@ pub enum AnsOp {
     SeekBeyond { via: SeekVia, extra: usize },
     BadSym { m: usize, sym: i64 },
     Fault(FaultOp),
+    /// `clear()` (Vec backend): restart from an empty coder
+    ClearCoder,
 }
 
 #[derive(Clone, Debug, Serialize, Deserialize, PartialEq)]
@@ -329,6 +334,8 @@ struct World<'t, C: Ws> {
     skip_inspect: bool,
     /// true once a decode consumed data in a way the LIFO bookkeeping cannot follow
     garbled: bool,
+    /// true once `clear()` was called
+    cleared: bool,
 }
 
 macro_rules! viol {
@@ -397,6 +404,7 @@ fn exec_cfg<C: Ws>(t: &AnsTrace, ctx: &mut Ctx, skip_inspect: bool) -> Result<Ru
         n_popped: 0,
         skip_inspect,
         garbled: false,
+        cleared: false,
     };
     w.after_op(ctx)?;
     if let Init::Binary(ws) = &t.init {
@@ -489,7 +497,9 @@ impl<'t, C: Ws> World<'t, C> {
         if ctx.on("C18") && !self.garbled && self.stack.is_empty() && matches!(ctx.op.checked_sub(0).and_then(|i| self.t.ops.get(i)), Some(AnsOp::Dec { .. }) | Some(AnsOp::DecBatch { .. })) && self.n_popped > 0 {
             // the decoder has consumed precisely the encoded symbols
             let me = self.coder.maybe_exhausted();
-            match &self.t.init {
+            // after a `clear()` the coder is an initially empty one, whatever it was loaded with
+            let init = if self.cleared { &Init::Empty } else { &self.t.init };
+            match init {
                 Init::Empty => {
                     ctx.stats.hit("exhaustion-checked");
                     if !me {
@@ -722,6 +732,24 @@ impl<'t, C: Ws> World<'t, C> {
             AnsOp::Inspect { view, n } => {
                 if !self.skip_inspect {
                     self.inspect(*view, *n, ctx)?;
+                }
+            }
+            AnsOp::ClearCoder => {
+                let Coder::V(c) = &mut self.coder else { ctx.stats.hit("skipped-op"); return Ok(()) };
+                c.clear();
+                ctx.stats.hit("op-clear");
+                self.r = RefAns::empty(C::WB, C::SB);
+                self.r_valid = true;
+                self.stack.clear();
+                self.epoch += 1;
+                self.garbled = false;
+                self.cleared = true;
+                // "starting from an empty coder" holds again (C12)
+                self.info_bits = Some(0.0);
+                self.eps_bits = 0.0;
+                self.n_enc = 0;
+                if ctx.any(&["C01", "C06", "C08"]) && (self.coder.state() != 0 || self.coder.bulk_len() != 0 || self.coder.export().map_or(true, |w| !w.is_empty())) {
+                    viol!(ctx, ctx.prop, "clear-does-not-empty-the-coder", "state {:#x}, {} bulk words", self.coder.state(), self.coder.bulk_len());
                 }
             }
             AnsOp::Snapshot => {
@@ -1179,6 +1207,44 @@ impl<'t, C: Ws> World<'t, C> {
             View::Queries => {
                 let _ = (self.coder.num_words(), self.coder.num_bits(), self.coder.num_valid_bits(), self.coder.is_empty(), self.coder.pos());
             }
+            View::BinaryDecoders => {
+                // payload is whole words iff the last exported word is the marker bit alone
+                if words.last() == Some(&1) {
+                    ctx.stats.hit("probe-binary-decoders");
+                    let payload: Vec<C::W> = wsw[..wsw.len() - 1].to_vec();
+                    // what any decoder over this payload must yield: what a clone of the coder yields
+                    let n_models = self.t.models.len().max(1);
+                    let plan: Vec<usize> = (0..n).map(|i| (i + words.len()) % n_models).collect();
+                    let mut reference = self.coder.clone_();
+                    let mut expect: Vec<(usize, DecRes)> = Vec::new();
+                    for mi in &plan {
+                        let Some(model) = self.model(*mi) else { break };
+                        if !model.can_decode() { break; }
+                        expect.push((*mi, reference.dec(model)));
+                    }
+                    macro_rules! same_as_clone {
+                        ($d:expr, $what:expr) => {{
+                            let mut d = $d;
+                            for (mi, want) in &expect {
+                                let model = self.model(*mi).expect("checked");
+                                let got = <C::W as WordOps>::dec(&mut d, model);
+                                if ctx.any(&["C04", "C08", "C01"]) && got != *want {
+                                    viol!(ctx, ctx.prop, "binary-decoder-differs-from-coder", "{}: got {:?}, the coder itself decodes {:?} (payload {:x?})", $what, got, want, tail(&words[..words.len() - 1]));
+                                }
+                            }
+                        }};
+                    }
+                    same_as_clone!(AnsCoder::<C::W, C::S, _>::from_binary_slice(&payload), "from_binary_slice");
+                    let mut rev = payload.clone();
+                    rev.reverse();
+                    same_as_clone!(AnsCoder::<C::W, C::S, _>::from_reversed_binary(rev), "from_reversed_binary");
+                    let it = payload.clone().into_iter().rev().map(Ok::<C::W, ()>);
+                    match AnsCoder::<C::W, C::S, _>::from_reversed_binary_iter(it) {
+                        Ok(d) => same_as_clone!(d, "from_reversed_binary_iter"),
+                        Err(()) => if ctx.any(&["C04", "C08"]) { viol!(ctx, ctx.prop, "binary-iter-import-refused", "{:x?}", tail(&words)) },
+                    }
+                }
+            }
             View::CloneDrop => {
                 let mut c = self.coder.clone_();
                 // use the clone a little; the original must not care
@@ -1389,6 +1455,7 @@ pub struct GenParams {
     pub w_seek: u64,
     pub w_badsym: u64,
     pub w_fault: u64,
+    pub w_clear: u64,
     pub p_other_model_decode: u64, // per mille
     pub init_binary: u64,          // percent
     pub init_compressed: u64,      // percent
@@ -1413,6 +1480,7 @@ impl GenParams {
             w_seek: 0,
             w_badsym: 0,
             w_fault: 0,
+            w_clear: if matches!(prop, "C04" | "C07" | "C09") { 0 } else { 1 },
             p_other_model_decode: 30,
             init_binary: 10,
             init_compressed: 15,
@@ -1587,6 +1655,9 @@ pub fn generate(seed: u64, prop: &str, thorough: bool) -> AnsTrace {
         // bits-back shape: decode k, (reload / inspect sprinkled in), encode back in reverse
         let k = rng.len(6, 60);
         let ms: Vec<usize> = (0..k).map(|_| rng.usize(n_models)).collect();
+        if rng.chance(1, 3) {
+            ops.push(AnsOp::Inspect { view: View::BinaryDecoders, n: 1 + rng.usize(8) });
+        }
         for &m in &ms {
             ops.push(AnsOp::Dec { m });
             if rng.chance(1, 10) {
@@ -1603,11 +1674,14 @@ pub fn generate(seed: u64, prop: &str, thorough: bool) -> AnsTrace {
                 ops.push(AnsOp::Reload { binary: rng.chance(1, 2) });
             }
         }
+        if rng.chance(1, 3) {
+            ops.push(AnsOp::Inspect { view: View::BinaryDecoders, n: 1 + rng.usize(8) });
+        }
         let _ = sb;
         return AnsTrace { cfg, backend, init, models, ops, expect: None, expect_decoded: None };
     }
 
-    let total = g.w_enc + g.w_dec + g.w_enc_batch + g.w_dec_batch + g.w_reload + g.w_clone + g.w_inspect + g.w_snapshot + g.w_seek + g.w_badsym + g.w_fault;
+    let total = g.w_enc + g.w_dec + g.w_enc_batch + g.w_dec_batch + g.w_reload + g.w_clone + g.w_inspect + g.w_snapshot + g.w_seek + g.w_badsym + g.w_fault + g.w_clear;
     while ops.len() < n_ops {
         let mut r = rng.below(total);
         macro_rules! take {
@@ -1685,7 +1759,7 @@ pub fn generate(seed: u64, prop: &str, thorough: bool) -> AnsTrace {
         } else if take!(g.w_inspect) {
             let view = *rng.pick(&[
                 View::GetCompressed, View::GetCompressed, View::GetBinary, View::IterCompressed, View::AsDecoder,
-                View::IntoDecoderClone, View::Slice, View::Reversed, View::RevIter, View::Queries, View::CloneDrop,
+                View::IntoDecoderClone, View::Slice, View::Reversed, View::RevIter, View::Queries, View::CloneDrop, View::BinaryDecoders,
             ]);
             ops.push(AnsOp::Inspect { view, n: rng.usize(6) });
         } else if take!(g.w_snapshot) {
@@ -1711,6 +1785,9 @@ pub fn generate(seed: u64, prop: &str, thorough: bool) -> AnsTrace {
                 continue;
             }
             ops.push(AnsOp::BadSym { m, sym });
+        } else if take!(g.w_clear) {
+            ops.push(AnsOp::ClearCoder);
+            shadow.clear();
         } else if take!(g.w_fault) {
             let f = match frng.below(4) {
                 0 => FaultOp::Clear,
